@@ -38,8 +38,15 @@ def fullIgnore (ignore : List String) : List String := ignore ++ Generated.ANTIT
 /-- the default of `by_gene(ignore=params.IGNORE_GENE_NAMES)` -/
 def defaultIgnore : List String := Generated.IGNORE_GENE_NAMES
 
+/-- `str.split(",")` on the characters of the string (`acc` = the piece being read, reversed);
+    structural, so that concrete examples reduce in the kernel -/
+def splitComma : List Char → List Char → List String
+  | acc, [] => [String.ofList acc.reverse]
+  | acc, c :: cs =>
+    if c == ',' then String.ofList acc.reverse :: splitComma [] cs else splitComma (c :: acc) cs
+
 /-- `genestr.split(",")` -/
-def names (b : Bin) : List String := b.gene.splitOn ","
+def names (b : Bin) : List String := splitComma [] b.gene.toList
 
 /-- insertion into an (ordered) dict: of the entries with the same name only the first stays,
     in order of first appearance -/
@@ -375,6 +382,13 @@ def breakpoints (t : List Bin) (minProbes : Nat) : List SegRow → List Brk
 
 /-- the names of a bin that count as genes: not Antitarget, not an ignored name -/
 def named (ign : List String) (b : Bin) : List String := (names b).filter (fun g => !ign.contains g)
+
+/-- The property's hypothesis for one chromosome, in its own words: "every named gene's bins
+    are consecutive (possibly interrupted only by Antitarget or ignored-name bins)" -- between
+    two bins carrying the gene `g`, no bin carries the name of another gene. -/
+def Contiguous (ign : List String) (rs : List Bin) : Prop :=
+  ∀ (i j k : Nat) (bi bj bk : Bin), i ≤ j → j ≤ k → rs[i]? = some bi → rs[j]? = some bj → rs[k]? = some bk →
+    ∀ g, g ∈ named ign bi → g ∈ named ign bk → ∀ h, h ∈ named ign bj → h = g
 
 /-- index of the last element satisfying `p` -/
 def lastIdxWith {α} (p : α → Bool) : List α → Option Nat
